@@ -643,8 +643,22 @@ def times(rep, prog):
         rep.saw(fn=si)
         rep.saw(fn=sb)
         pv = si.params[1]
+        # datetime setter: the value kept is the instant that was given (an aware datetime is converted, never relabelled)
+        sd = p.setters.get('datetime')
+        if sd is not None:
+            rep.saw(fn=sd)
+            _datetime_setter(rep, prog, cls, prop, sd)
+        for f_ in (si, sb):
+            # the codec is a function of the four octets: no clock on the parse path
+            for s in Interp(prog, Scenario(inline=noinline)).run(f_):
+                clock = [c[0] for c in s.calls if c[0].split('.')[-1] in CLOCK_READS and (c[0].split('.')[-1] != 'time' or c[0] in ('time.time', 'time'))]
+                rep.check(not clock, 'C09.5', '%s.%s (%s)' % (cls, prop, 'int' if f_ is si else 'bytes'), 'clock read %s' % clock,
+                          'the time read from a packet must be a function of its four octets: this path reads the clock (%s)' % ', '.join(clock),
+                          where=f_.where, expected='no datetime.now() / time.time() while decoding', found=clock)
         for s in Interp(prog, Scenario(inline=noinline)).run(si):
             v = [val for pth, val, l, _ in s.stores if pth.startswith(si.params[0] + '.')]     # the property or its backing attribute
+            if any(c[0].split('.')[-1] in CLOCK_READS for c in s.calls) and len(v) == 1 and not v[0].startswith(('datetime.fromtimestamp', 'datetime.utcfromtimestamp')):
+                continue          # reported above as a clock read
             verdict = _aware_utc_from_seconds(s, v, pv)
             if verdict is None:
                 raise AnalysisError('%s.%s (int): value %s is not a conversion the time-reader rule models' % (cls, prop, v))
@@ -663,6 +677,44 @@ def times(rep, prog):
     for s in Interp(prog, Scenario()).run(f):
         rep.check(render(s.ret).endswith('INT(4;int(self.expires.total_seconds()))'), 'C09.5', 'SignatureExpirationTime.__bytearray__', render(s.ret)[-60:],
                   'expiration times are written as whole seconds in four octets', where=f.where)
+
+
+CLOCK_READS = ('now', 'utcnow', 'today', 'time', 'time_ns', 'monotonic', 'gmtime', 'localtime')
+
+
+def _datetime_setter(rep, prog, cls, prop, sd):
+    """The datetime overload of a four-octet time property.  The octets later written are the POSIX timestamp of the value kept, so
+    an aware datetime must be kept as given or converted with astimezone(); replace(tzinfo=...) on a value that may already be aware
+    moves the instant by the zone's offset (only on a path that established `tzinfo is None` does it merely label a naive value)."""
+    pv = sd.params[1]
+    for s in Interp(prog, Scenario(inline=noinline)).run(sd):
+        stored = [val for pth, val, l, _ in s.stores if pth.startswith(sd.params[0] + '.')]
+        naive_path = any(b is True and t.replace(' ', '') in ('(%s.tzinfoisNone)' % pv, '(%s.utcoffset()isNone)' % pv) for t, b, _ in s.facts) or \
+            any(b is False and t.replace(' ', '') in ('(%s.tzinfoisnotNone)' % pv,) for t, b, _ in s.facts)
+        for v in stored:
+            if v == pv:
+                verdict = True
+            elif not v.startswith(pv + '.'):
+                verdict = None
+            else:
+                verdict = True
+                rest = v[len(pv):]
+                calls = [m for m in rest.split(').') if m]
+                for m in calls:
+                    m = m.lstrip('.')
+                    if m.startswith('replace('):
+                        if 'tzinfo=' in m and not naive_path:
+                            verdict = False
+                    elif m.startswith('astimezone('):
+                        pass
+                    else:
+                        verdict = None if verdict else verdict
+            if verdict is None:
+                raise AnalysisError('%s.%s (datetime): value %s is not a shape the time rule models' % (cls, prop, v))
+            rep.check(verdict, 'C09.5', '%s.%s (datetime)' % (cls, prop), v,
+                      'an aware datetime is relabelled with replace(tzinfo=...) instead of converted with astimezone(): the four octets written '
+                      'are off by the zone offset (12:00-04:00 is written as 12:00Z)', where=sd.where,
+                      expected='%s or %s.astimezone(timezone.utc)' % (pv, pv), found=v)
 
 
 def _aware_utc_from_seconds(s, stored, pv):
